@@ -29,6 +29,7 @@ Sig(t) ==
       [] t = "quot"  -> <<"a", <<"a", "a">>>>
       [] t = "callf" -> <<"a", <<"a">>>>             \* <func>f(e)
       [] t = "callfk" -> <<"a", <<"a", "a">>>>       \* <func>f(e, k=e)
+      [] t = "callfkm" -> <<"a", <<"a", "a", "a">>>> \* <func>f(e, k=e, m=e)
       [] t = "callg" -> <<"a", <<"a", "a">>>>        \* <func>g(e, e)
       [] t = "sub"   -> <<"a", <<"a">>>>             \* arr[e]
       [] t = "min2"  -> <<"a", <<"a", "a">>>>
